@@ -1,4 +1,5 @@
 import ShroudVerif.Model.Registry
+import ShroudVerif.Model.Lines
 import ShroudVerif.Gen.Registry
 /-!
 # C07  Output is a pure, repeatable function of the inputs and command line
@@ -164,3 +165,46 @@ theorem registries_classified :
 theorem no_ambient_state : ambientUses = [] := by decide +kernel
 
 end Shroud.Registry
+
+namespace Shroud.Registry
+open Shroud.Lines
+
+/-! ### files: what `write_output_file` leaves behind depends on its inputs only
+
+The output directory is a map from file names to contents (`none` = no such file).  `write_output_file`
+opens the file for writing and writes header and body: afterwards the file holds exactly
+`Shroud.Lines.writeOutputFile` of the inputs - whatever the directory held before. -/
+
+abbrev Dir := List Char → Option (List (List Char))
+
+def Dir.write (d : Dir) (name : List Char) (lines : List (List Char)) : Dir :=
+  fun n => if n = name then some lines else d n
+
+/-- `WrapperMixin.write_output_file(fname, directory, output)` on a directory -/
+def wofDir (d : Dir) (comment fname version : List Char) (copyright : List (List Char))
+    (linelen : Nat) (spaces cont : List Char) (output : List Item) : Res Dir :=
+  match writeOutputFile comment fname version copyright linelen spaces cont output with
+  | .ok ls => .ok (d.write fname ls)
+  | .crash e => .crash e
+
+/-- **pre-existing files do not matter**: for any two directories - empty, holding an older shorter or longer
+    version of the same file, or anything else - the file written is the same, and every other file is left as it was -/
+theorem written_file_independent_of_directory (d d' : Dir) (comment fname version : List Char)
+    (copyright : List (List Char)) (linelen : Nat) (spaces cont : List Char) (output : List Item) :
+    (∀ r, wofDir d comment fname version copyright linelen spaces cont output = .ok r →
+      ∃ r', wofDir d' comment fname version copyright linelen spaces cont output = .ok r' ∧ r fname = r' fname ∧
+        (∀ n, n ≠ fname → r n = d n ∧ r' n = d' n)) := by
+  intro r hr
+  unfold wofDir at hr ⊢
+  cases hw : writeOutputFile comment fname version copyright linelen spaces cont output with
+  | crash e => rw [hw] at hr; cases hr
+  | ok ls =>
+    rw [hw] at hr
+    injection hr with hr
+    subst hr
+    refine ⟨d'.write fname ls, rfl, by simp [Dir.write], ?_⟩
+    intro n hn
+    simp [Dir.write, hn]
+
+end Shroud.Registry
+
